@@ -543,7 +543,7 @@ func C20(rep *ev.Reporter, tier string) {
 		rep.Exhaustive = false
 		rep.Coverage["caps_hit"] = fmt.Sprintf("time budget: %d of %d inputs run", ran, total)
 	}
-	rep.Coverage["rule"] = "four loaders (GRL text via the builder - into a fresh knowledge base and onto two knowledge bases that came out of the binary loader, one of them without any variable -, JSON rule via JSONResource+builder, JSON fact via DataContext.AddJSON, binary stream via LoadKnowledgeBaseFromReader), bounded-exhaustive input spaces, no sampling: every byte string of length <= 2 and every length-3 string over a 24-byte structural alphabet; for each valid seed every single-point mutation (every bit flip, every byte set to 00/7f/80/ff, truncation at every offset), every field start of a binary seed (boundaries from a tracing writer) overwritten with 13 boundary values, every node reference (AstID text) of a binary seed replaced by every other id of the stream (dangling, duplicated and cyclic references), splices of seed pairs, boundary numbers in every numeric position, nesting depth 10..2000; for the JSON loaders every value of a seed (at every path) replaced by each of 11 alien values (null, true, numbers, empty and null-holding containers, 1e999) and every token string of length <= 4 over a 13-token JSON alphabet. Each input runs in a child process under RLIMIT_AS (ulimit -v 4 GiB): the worker must survive (no escaped panic, no runtime abort), return a value or an error, allocate at most 8 MiB + 2048 bytes per input byte (runtime.MemStats.TotalAlloc delta) and finish within the hang horizon. Every input is non-trivial (it exercises a loader end to end)."
+	rep.Coverage["rule"] = "four loaders (GRL text via the builder - into a fresh knowledge base and onto two knowledge bases that came out of the binary loader, one of them without any variable -, JSON rule via JSONResource+builder, JSON fact via DataContext.AddJSON, binary stream via LoadKnowledgeBaseFromReader), bounded-exhaustive input spaces, no sampling: every byte string of length <= 2 and every length-3 string over a 24-byte structural alphabet; for each valid seed every single-point mutation (every bit flip, every byte set to 00/7f/80/ff, truncation at every offset), every field start of a binary seed (boundaries from a tracing writer) overwritten with 13 boundary values, every node reference (AstID text) of a binary seed replaced by every other id of the stream (dangling, duplicated and cyclic references), splices of seed pairs, boundary numbers in every numeric position, nesting depth 10..2000; for the JSON loaders every string value of a seed extended at either end by each of 18 tails (CR, VT, FF, NBSP, line separator, repeated ';', comment openers, NUL, backslash) and every value of a seed (at every path) replaced by each of 11 alien values (null, true, numbers, empty and null-holding containers, 1e999) and every token string of length <= 4 over a 13-token JSON alphabet. Each input runs in a child process under RLIMIT_AS (ulimit -v 4 GiB): the worker must survive (no escaped panic, no runtime abort), return a value or an error, allocate at most 8 MiB + 2048 bytes per input byte (runtime.MemStats.TotalAlloc delta) and finish within the hang horizon. Every input is non-trivial (it exercises a loader end to end)."
 	rep.Assumptions = append(rep.Assumptions, "uniformly random long inputs are sampling and outside this family; hang detection uses a wall clock (30 s for inputs that take microseconds, confirmed twice in isolation)")
 }
 
@@ -618,5 +618,40 @@ func c20JSONMutations(seed []byte, alts []string) [][]byte {
 		}
 	}
 	walk(func() interface{} { return root }, func(v interface{}) { root = v })
+	// every STRING value of the document extended by each of a set of tails: white space of every kind
+	// (CR, VT, FF, NBSP, line separator), repeated terminators, comment openers
+	tails := []string{"\r", "\r\n", "\v", "\f", "\u00a0", "\u2028", " \t ", ";", ";;", "; ;", ";\r", ";\r\n", ";\v", ";\u00a0", "//", "/*", "\u0000", "\\"}
+	var walkS func(get func() interface{}, set func(interface{}))
+	walkS = func(get func() interface{}, set func(interface{})) {
+		switch x := get().(type) {
+		case string:
+			for _, t := range tails {
+				var tail string
+				if json.Unmarshal([]byte(`"`+t+`"`), &tail) != nil {
+					continue
+				}
+				set(x + tail)
+				if b, err := json.Marshal(root); err == nil {
+					out = append(out, b)
+				}
+				set(tail + x)
+				if b, err := json.Marshal(root); err == nil {
+					out = append(out, b)
+				}
+			}
+			set(x)
+		case map[string]interface{}:
+			for k := range x {
+				k := k
+				walkS(func() interface{} { return x[k] }, func(v interface{}) { x[k] = v })
+			}
+		case []interface{}:
+			for i := range x {
+				i := i
+				walkS(func() interface{} { return x[i] }, func(v interface{}) { x[i] = v })
+			}
+		}
+	}
+	walkS(func() interface{} { return root }, func(v interface{}) { root = v })
 	return out
 }
